@@ -31,6 +31,26 @@ def main():
             continue
         caught = {}
         order = [prop] + [c for c in checks if c != prop]
+        # fast mode (SWEEP_FAST=1): a seed that an earlier sweep found reported is first re-run against the checks (and tiers) that
+        # reported it; if they still do, the other checks are not run again
+        prev = None
+        if os.environ.get("SWEEP_FAST"):
+            try:
+                prev = json.load(open(os.path.join(d, "meta.json"))).get("detected_by") or None
+            except (OSError, ValueError):
+                prev = None
+        if prev and any(v.get("rules") for v in prev.values()):
+            for c, v in prev.items():
+                if c not in checks or not v.get("rules"):
+                    continue
+                out = sh("cd %s && ./check %s --tier %s" % (VERIF, c, v.get("tier", "quick")), env=env).stdout
+                rules = sorted(set(re.findall(r"rule=(\S+)", out)))
+                if rules:
+                    caught[c] = {"tier": v.get("tier", "quick"), "rules": rules, "analysis_broken": "ANALYSIS-BROKEN" in out}
+            if any(v["rules"] for v in caught.values()):
+                order = []
+            else:
+                caught = {}
         for c in order:
             if c not in checks:
                 continue
